@@ -3,7 +3,7 @@
 Driver-side grammar checker over every successful result of a grammar-driven
 workload with many phrases per setting (digest-dependent shape), plus the
 "accepted as a setting / as a gensalt prefix" clauses checked by execution."""
-from .. import common, gen, pool, rt
+from .. import common, facts, gen, pool, rt
 from ..pool import Death, Timeout
 
 PID = "C06"
@@ -23,6 +23,14 @@ def make_cases(seed, tier):
             if i % 4 == 3:
                 s, lab = gen.mutate(rng, s, long_ok=False)
                 form = "mutated:" + lab.split("-")[0]
+            elif i % 8 == 1:
+                # the characters that sit between the runs of the base-64 alphabets in ASCII ('9'..'A', 'Z'..'a'):
+                # passwd(5)-safe, so only the method's own field check keeps them out of a result
+                runs = [k for k in range(len(gen.TAG[m]), len(s)) if s[k] in gen.A64SET]
+                if runs:
+                    q = rng.choice(runs)
+                    s = s[:q] + bytes([rng.choice(b"[]^_`@<=>?")]) + s[q + 1:]
+                    form = "between-runs-char"
             if gen.cost_units(s, 64) > BUDGET:
                 skipped += 1
                 continue
@@ -32,7 +40,7 @@ def make_cases(seed, tier):
 
 
 def dispatch(item):
-    return do_big_cost(item[1]) if item[0] == "big" else do_chunk(item[1])
+    return do_big_cost(item[1]) if item[0] == "big" else do_locale(item[1]) if item[0] == "locale" else do_chunk(item[1])
 
 
 def do_chunk(chunk):
@@ -132,6 +140,75 @@ def do_chunk(chunk):
     return acc
 
 
+def do_locale(args):
+    """the same requests in a process that has selected a single-byte locale (what login, su, passwd do with
+    setlocale (LC_ALL, "")): <ctype.h> classification of the bytes 0xa1..0xff differs there.  Every result must be what
+    the "C" locale process returns, and a successful one well-formed."""
+    seed, n, locpath = args
+    from .. import locale8
+    acc = common.Acc()
+    rng = rt.rng_for(seed, PID, "locale")
+    wl = pool.Worker(rt.PATHS["vw-" + FL], env={"LOCPATH": locpath})
+    wc = rt.vw(FL)
+    setup_c = [rt.obj_line(0, align=3, fill="r", seed=5)]
+    setup_l = ["setlocale " + locale8.NAME] + setup_c
+    res, end = wl.run(setup_l[:1], 60)
+    if end is not None or res[0].get("set") != "1" or res[0].get("graph_e9") != "1":
+        acc.inconc("the single-byte test locale could not be selected: %s" % (res[:1],))
+        wl.stop()
+        return acc
+    lines, meta = [], []
+    for i in range(n):
+        m = rng.choice(gen.METHODS)
+        s, form = gen.gen_valid(rng, m)
+        k = rng.random()
+        if k < 0.6 and len(s) > 3:
+            # an 8-bit byte somewhere behind the tag: letters, punctuation and the no-break space of ISO-8859-1
+            q = rng.randrange(min(3, len(s) - 1), len(s))
+            s = s[:q] + bytes([rng.choice([0xe9, 0xc0, 0xff, 0xa1, 0xbf, 0xd7, 0xa0, 0x80, 0x9f, rng.randint(0xa1, 0xff)])]) + s[q + 1:]
+            form = "8bit"
+        elif k < 0.7:
+            s, lab = gen.mutate(rng, s, long_ok=False)
+            form = "mutated"
+        if gen.cost_units(s, 64) > BUDGET:
+            continue
+        p = gen.gen_phrase(rng)
+        e = rng.choice(["crypt_rn", "crypt_r", "crypt_ra", "crypt"])
+        lines.append(rt.crypt_line(e, 2 if e == "crypt_ra" else 0, p, s))
+        meta.append((m, form, s, p))
+        lines.append("checksalt %s" % pool.hx(s))
+        meta.append((m, "checksalt", s, None))
+    for m in facts.GENSALT_METHODS:
+        lines.append(rt.gensalt_line("rn", gen.TAG[m], 0, bytes(range(160, 224)), 64, 192))
+        meta.append((m, "gensalt", gen.TAG[m], None))
+    rows_l = rt.run_resilient(wl, setup_l + ["raobj 2 -1 0"], lines)
+    rows_c = rt.run_resilient(wc, setup_c + ["raobj 2 -1 0"], lines)
+    wl.stop()
+    for (m, form, s, p), a, b, ln in zip(meta, rows_l, rows_c, lines):
+        acc.count("evaluations")
+        if isinstance(a, Death):
+            rt.death_violation(acc, PID, a, FL, ln, "single-byte-locale/" + m, setup_l)
+            continue
+        if not isinstance(a, dict) or not isinstance(b, dict):
+            acc.inconc("timeout/death in the locale comparison")
+            continue
+        acc.count("locale_comparisons")
+        acc.cls(("locale", m, form, a.get("r", a.get("v"))))
+        ka = (a.get("r"), a.get("o"), a.get("v"), a.get("e") if a.get("r") == "N" else None)
+        kb = (b.get("r"), b.get("o"), b.get("v"), b.get("e") if b.get("r") == "N" else None)
+        if ka != kb:
+            acc.violation("%s/locale-dependent/%s" % (PID, m),
+                          "%s: in a process that selected a single-byte locale the call gives %s, in the C locale %s; "
+                          "setting=%r" % (form, ka, kb, s[:100]), rt.replay_obj(FL, setup_l + [ln]))
+            continue
+        if form not in ("checksalt", "gensalt"):
+            h = rt.hash_of(a)
+            if h is not None and gen.has_bad_chars(h):
+                acc.violation("%s/bad-char/%s" % (PID, m), "single-byte locale: setting=%r result=%r" % (s[:100], h[:200]),
+                              rt.replay_obj(FL, setup_l + [ln]))
+    return acc
+
+
 def big_cost_cases(tier):
     """the widest cost spellings the methods document: the result field has to hold them (executed on the -O2
     build, one process each; tens of seconds of hashing in the quick tier, minutes in the thorough one)"""
@@ -178,6 +255,12 @@ def run(tier):
     cases, skipped = make_cases(run_.seed, tier)
     work = [("chunk", c) for c in pool.chunks(cases, 25)]
     # the long-running cases first so that they overlap with everything else
+    from .. import locale8
+    locpath = locale8.ensure()
+    if locpath is None:
+        run_.acc.inconc("localedef could not build the single-byte test locale")
+    else:
+        work += [("locale", (run_.seed * 100 + i, 150 if tier == "quick" else 1500, locpath)) for i in range(4 if tier == "quick" else 16)]
     for acc in pool.pmap(dispatch, [("big", c) for c in big_cost_cases(tier)] + work):
         run_.merge(acc)
     a = run_.acc
@@ -197,6 +280,7 @@ def run(tier):
                 "as a prefix; distinct = (method, setting-form class) cells with a judged success",
         "successes_judged": int(a.n.get("successes", 0)),
         "followup_triples": int(a.n.get("followups", 0)),
+        "calls_compared_between_single_byte_locale_and_C_locale": int(a.n.get("locale_comparisons", 0)),
         "rejected_by_library": int(a.n.get("rejected", 0)),
         "digest_alphabet_coverage": dig,
         "skipped_expensive": skipped,
